@@ -41,7 +41,16 @@ func checkConstPtrAgree(c *core.Ctx, l *core.Ledger, rule string) {
 	// the struct literal is the only constant rendered behind '&'
 	ampStruct, ampOther := false, []string{}
 	for _, f := range c.AllFuncs("gen") {
-		if c.IsTestFile(f.Pos()) || !strings.HasPrefix(f.Name(), "constant") {
+		if c.IsTestFile(f.Pos()) || f.Parent() != nil {
+			continue
+		}
+		// the constant renderers: func(Generator, <a constant value type>, TypeSpec) (string, error)
+		isRenderer := false
+		if f.Signature.Params().Len() == 3 && f.Signature.Results().Len() == 2 {
+			p1 := core.TypeLabel(f.Signature.Params().At(1).Type())
+			isRenderer = strings.Contains(p1, "compile.Constant") && core.TypeLabel(f.Signature.Params().At(2).Type()) == "compile.TypeSpec"
+		}
+		if !isRenderer {
 			continue
 		}
 		core.Instrs(f, func(in ssa.Instruction) {
